@@ -397,6 +397,15 @@ k2("K155", "C01", [("frame/encode.go", "\t\"io\"\n", "\t\"io\"\n\t\"sync\"\n"),
 k("K156", "C04", "datacodec/codec.go", "\t\tif !keyType.Comparable() {\n", "\t\tif false && !keyType.Comparable() {\n",
   "reflect-key:datacodec.PreferredGoType MapOf#1", "reflect.MapOf reachable with a non-comparable key type")
 
+k2("K157", "C06", [("segment/codec.go", "import (\n\t\"io\"\n)", "import (\n\t\"bytes\"\n\t\"io\"\n)"),
+   ("segment/codec.go", "type codec struct {\n\tcompressor PayloadCompressor\n}", "type codec struct {\n\tcompressor PayloadCompressor\n\tcompressed bytes.Buffer\n}"),
+   ("segment/encode.go", "\tcompressedPayload := bytes.NewBuffer(make([]byte, 0, len(segment.Payload.UncompressedData)))", "\tcompressedPayload := &c.compressed")],
+  "codec-stateless:(*segment.codec).encodeSegmentCompressed", "scratch buffer kept in the codec: stale bytes after an uncompressed fallback")
+k2("K158", "C18", [("segment/codec.go", "import (\n\t\"io\"\n)", "import (\n\t\"bytes\"\n\t\"io\"\n)"),
+   ("segment/codec.go", "type codec struct {\n\tcompressor PayloadCompressor\n}", "type codec struct {\n\tcompressor PayloadCompressor\n\tcompressed bytes.Buffer\n}"),
+   ("segment/encode.go", "\tcompressedPayload := bytes.NewBuffer(make([]byte, 0, len(segment.Payload.UncompressedData)))", "\tcompressedPayload := &c.compressed")],
+  "write-free:(*segment.codec).encodeSegmentCompressed", "address of a codec field handed to a writer")
+
 
 json.dump(C, open(os.path.join(os.path.dirname(os.path.abspath(__file__)), "controls.json"), "w"), indent=1)
 print(len(C), "controls")
